@@ -513,3 +513,102 @@ Lemma programs_parse :
   parses_to (S_ "(define c #f)"%string) c_def /\
   parses_to (S_ "(set! c (mk c))"%string) c_step.
 Proof. vm_compute. repeat split. Qed.
+
+(* ============================================================ mutual recursion *)
+(* (define ping (lambda (l) (if l (pong (l)) 'done))) (define pong (lambda (l) (if l (ping (l)) 'done))) *)
+Definition ping_body : expr3 :=
+  YIf (YVar (S_ "l")) (YApp (YVar (S_ "pong")) [call_l]) (YQuote (CSym (S_ "done"))).
+Definition pong_body : expr3 :=
+  YIf (YVar (S_ "l")) (YApp (YVar (S_ "ping")) [call_l]) (YQuote (CSym (S_ "done"))).
+Definition ping_clo : rval3 := R3Clo [S_ "l"] [] ping_body [].
+Definition pong_clo : rval3 := R3Clo [S_ "l"] [] pong_body [].
+Definition ping_def : expr3 := YDefine (S_ "ping") (YLam [S_ "l"] [S_ "pong"] ping_body).
+Definition pong_def : expr3 := YDefine (S_ "pong") (YLam [S_ "l"] [S_ "ping"] pong_body).
+Definition ping_call : expr3 := YApp (YVar (S_ "ping")) [YVar (S_ "c")].
+
+Section Mutual.
+Variable bsem : N -> list rval -> option rval.
+Notation dref3 := (LoopSpace.dref3 bsem).
+
+Lemma pingpong_depth rho : rho (S_ "ping") = Some ping_clo -> rho (S_ "pong") = Some pong_clo -> forall n,
+  (exists dl dn dt, dref3 true [S_ "l"] [chain n] rho ping_body v_done rho dl dn dt /\ dn <= 4 /\ dt <= 9) /\
+  (exists dl dn dt, dref3 true [S_ "l"] [chain n] rho pong_body v_done rho dl dn dt /\ dn <= 4 /\ dt <= 9).
+Proof.
+  intros Hp Hq. induction n as [|k [IHp IHq]].
+  - split; do 3 eexists;
+      (split; [eapply D3_if_f; [apply (D3_local bsem false _ _ _ _ 0); reflexivity|reflexivity|apply D3_quote]|lia]).
+  - destruct IHp as (dlp & dnp & dtp & Dp & P1 & P2). destruct IHq as (dlq & dnq & dtq & Dq & Q1 & Q2).
+    destruct (call_l_depth bsem rho k) as (dl1 & dn1 & dt1 & D1 & -> & -> & ->).
+    split; do 3 eexists.
+    + split.
+      * eapply D3_if_t; [apply (D3_local bsem false _ _ _ _ 0); reflexivity|reflexivity|].
+        eapply (D3_app_closure bsem true _ _ _ _ _ [chain k] _ [S_ "l"] [] pong_body []).
+        -- eapply D3_cons; [exact D1|apply D3_nil].
+        -- apply D3_global; [reflexivity|exact Hq|discriminate].
+        -- reflexivity.
+        -- exact Dq.
+      * change (len [call_l]) with 1. lia.
+    + split.
+      * eapply D3_if_t; [apply (D3_local bsem false _ _ _ _ 0); reflexivity|reflexivity|].
+        eapply (D3_app_closure bsem true _ _ _ _ _ [chain k] _ [S_ "l"] [] ping_body []).
+        -- eapply D3_cons; [exact D1|apply D3_nil].
+        -- apply D3_global; [reflexivity|exact Hp|discriminate].
+        -- reflexivity.
+        -- exact Dp.
+      * change (len [call_l]) with 1. lia.
+Qed.
+
+Lemma ping_call_depth rho n : rho (S_ "ping") = Some ping_clo -> rho (S_ "pong") = Some pong_clo ->
+  rho (S_ "c") = Some (chain n) ->
+  exists dl dn dt, dref3 true [] [] rho ping_call v_done rho dl dn dt /\ dn <= 2 /\ dt <= 9.
+Proof.
+  intros Hp Hq Hc. destruct (pingpong_depth rho Hp Hq n) as [(dlb & dnb & dtb & D & H1 & H2) _].
+  do 3 eexists. split.
+  - eapply (D3_app_closure bsem true _ _ _ _ _ [chain n] _ [S_ "l"] [] ping_body []).
+    + eapply D3_cons; [apply D3_global; [reflexivity|exact Hc|apply chain_not_undef]|apply D3_nil].
+    + apply D3_global; [reflexivity|exact Hp|discriminate].
+    + reflexivity.
+    + exact D.
+  - change (len [YVar (S_ "c")]) with 1. lia.
+Qed.
+End Mutual.
+
+Lemma wf3_ping_call : wf3 ping_call [].
+Proof. apply wf3_app. split; [reflexivity|]. split; [reflexivity|]. repeat constructor. Qed.
+
+(* loop_space for MUTUAL tail recursion: n alternating tail calls, the same bound *)
+Theorem pingpong_loop_space ob bsem :
+  (forall b, builtin_ok ob bsem b) -> (forall b, builtin_envs ob bsem b) ->
+  forall n rho s,
+  rho (S_ "ping") = Some ping_clo -> rho (S_ "pong") = Some pong_clo -> rho (S_ "c") = Some (chain n) ->
+  minv s -> genv_rel3 rho s ->
+  transform_expr TRANSFORM_FUEL s (cell_of3 ping_call) = Ok (cell_of3 ping_call) ->
+  exists k m m0 m6,
+    prepare_eval (cell_of3 ping_call) s = ROk tt m0 /\ sp m0 = sp s /\ RunProofs.steps ob k m0 = Some m6 /\
+    Vm.run_one ob m6 = ROk true m /\
+    (forall fuel, (S k <= fuel)%nat -> eval ob fuel (cell_of3 ping_call) s = halt_result m) /\
+    vrep3 m (acc m) v_done /\ genv_rel3 rho m /\ minv m /\ sp m = sp s /\
+    (forall j s', (j <= k)%nat -> RunProofs.steps ob j m0 = Some s' -> sp s' <= sp s + 9).
+Proof.
+  intros Hb He n rho s Hp Hq Hc MI G Htr.
+  destruct (ping_call_depth bsem rho n Hp Hq Hc) as (dl & dn & dt & D & H1 & H2).
+  destruct (exec_bounded ob bsem Hb He ping_call rho v_done rho s dl dn dt wf3_ping_call D MI G Htr)
+    as (k & m & m0 & m6 & P1 & P2 & P3 & P4 & P5 & P6 & P7 & P8 & P9 & P10 & _).
+  exists k, m, m0, m6. do 9 (split; [assumption|]).
+  intros j s' Hj Hs'. pose proof (P10 j s' Hj Hs'). lia.
+Qed.
+
+(* the model: ping/pong on chains of 1, 5, 50 thunks *)
+Definition pingpong_measure (n : nat) : option (N * cell * N) :=
+  match Builtins.load_builtins (vm_empty 8192) with
+  | ROk _ s0 =>
+      match run_forms ([ping_def; pong_def; mk_def; c_def] ++ repeat c_step n) s0 with
+      | Some s => measure ping_call s 2000
+      | None => None
+      end
+  | _ => None
+  end.
+Lemma pingpong_measures :
+  pingpong_measure 1 = Some (9, CSym (S_ "done"), 0) /\ pingpong_measure 5 = Some (9, CSym (S_ "done"), 0) /\
+  pingpong_measure 50 = Some (9, CSym (S_ "done"), 0).
+Proof. vm_compute. repeat split. Qed.
